@@ -19,7 +19,7 @@ ASSUMPTIONS = [
     "round(length/avg) is read literally as Python's round: an exact .5 tie goes to the even neighbour (2.5 -> 2, 3.5 -> 4)",
     "merge(bp != 0) is judged against the documented grouping rule (join while next.start - running max end <= -bp)",
 ]
-BUDGET_S = {"quick": 300, "thorough": 3000}
+BUDGET_S = {"quick": 900, "thorough": 7200}
 
 _SCOPE = {}
 
